@@ -43,6 +43,13 @@ const (
 	maxSteps  = 20000
 	epiLen    = 180
 	epiSlack  = 2048
+
+	// programs that CREATE: every child that halts exceptionally burns 63/64 of the
+	// gas left, so they get 1e15 gas (at most 4 such children are judged); then only
+	// a request for >= 32 GiB of memory is certainly out of gas (w^2/512 > 1e15).
+	gasSupplyHi = uint64(1000000000000000)
+	memHardHi   = 1 << 35
+	maxFailedCh = 4
 )
 
 // Prog is one case (and the witness of a violation).
@@ -57,6 +64,11 @@ type Prog struct {
 	Straight bool    `json:"straight,omitempty"` // body is straight-line code: prefixes can be run to localise a mismatch
 	Want     mon.Hex `json:"want,omitempty"`     // vector cases: expected top-of-stack word
 	Note     string  `json:"note,omitempty"`
+	Mode     string  `json:"mode,omitempty"`  // "" = deployed and called; "create" = run as the initcode of a top-level creation
+	Blob     mon.Hex `json:"blob,omitempty"`  // bytes appended after the epilogue (initcodes read with CODECOPY)
+	HiGas    bool    `json:"higas,omitempty"` // CREATE family: 1e15 gas
+	Edge     bool    `json:"edge,omitempty"`  // stack-boundary case: when the reference leaves its scope, the real run must still not report a stack fault
+	Depth    int     `json:"depth,omitempty"` // stack-boundary case: stack depth at which Op is offered
 }
 
 // epilogue builds the fixed-length observation epilogue for a frame that
@@ -97,6 +109,8 @@ type realOut struct {
 	ret     []byte
 	err     error
 	aborted bool
+	newAddr common.Address
+	state   string // first difference between the real state and the reference's final world ("" = none)
 }
 
 type harness struct {
@@ -149,12 +163,9 @@ func boot(r *mon.Run, cfgName string) *harness {
 	h.addr = common.HexToAddress("0x00000000000000000000000000000000c0de0010")
 	h.newDB()
 	vm.VerifStepHook = func(depth int, pc uint64, op byte, gas uint64, stackLen int, memLen int, readOnly bool) {
-		if depth != 1 {
-			return
-		}
 		h.hist[op]++
 		if len(h.trace) < maxSteps+64 {
-			h.trace = append(h.trace, evmref.Step{PC: pc, Op: op, StackLen: stackLen, MemLen: memLen})
+			h.trace = append(h.trace, evmref.Step{Depth: depth, PC: pc, Op: op, StackLen: stackLen, MemLen: memLen})
 		} else if !h.aborted {
 			h.aborted = true
 			if h.curEVM != nil {
@@ -164,7 +175,8 @@ func boot(r *mon.Run, cfgName string) *harness {
 	}
 	h.probe()
 	h.cfg = evmref.Config{Push0: h.defined[0x5f], Mcopy: h.defined[0x5e],
-		MemSoft: memSoft + epiSlack, MemHard: memHard, MaxSteps: maxSteps, Trace: true}
+		MemSoft: memSoft + epiSlack, MemHard: memHard, MaxSteps: maxSteps, Trace: true,
+		Self: evmref.Address(h.addr), Origin: evmref.Address(h.ctx.Origin)}
 	return h
 }
 
@@ -185,34 +197,87 @@ func (h *harness) cleanup() {
 	}
 }
 
-// runReal executes code on the real EVM.
-func (h *harness) runReal(code, data []byte) realOut {
+// runReal executes code on the real EVM: deployed at h.addr and called, or
+// (create) as the initcode of a creation sent by the origin. Before the state
+// is rolled back it is compared with the reference's final world, if given.
+func (h *harness) runReal(code, data []byte, p *Prog, ref *evmref.Result) realOut {
 	if h.nRun >= 4000 {
 		h.newDB()
 	}
 	h.nRun++
 	h.trace = h.trace[:0]
 	h.aborted = false
+	gas := gasSupply
+	create := false
+	if p != nil {
+		create = p.Mode == "create"
+		if p.HiGas {
+			gas = gasSupplyHi
+		}
+	}
 	snap := h.adb.Snapshot()
-	h.adb.SetCode(h.addr, code)
 	evm := vm.NewEVMWithNFT(h.ctx, h.adb, h.adb)
 	h.curEVM = evm
-	ret, _, _, err := evm.Call(h.caller, h.addr, data, gasSupply, new(big.Int))
+	var ret []byte
+	var err error
+	var out realOut
+	if create {
+		ret, out.newAddr, _, _, err = evm.Create(h.caller, code, gas, new(big.Int))
+	} else {
+		h.adb.SetCode(h.addr, code)
+		ret, _, _, err = evm.Call(h.caller, h.addr, data, gas, new(big.Int))
+	}
 	h.curEVM = nil
-	out := realOut{err: err, aborted: h.aborted}
+	out.err, out.aborted = err, h.aborted
 	switch {
 	case err == nil:
 		out.class = evmref.Success
-		out.ret = append([]byte{}, ret...)
 	case err == vm.ErrExecutionReverted:
 		out.class = evmref.Revert
-		out.ret = append([]byte{}, ret...)
 	default:
 		out.class = evmref.Fail
-		out.ret = append([]byte{}, ret...) // must be empty; compared
+	}
+	out.ret = append([]byte{}, ret...) // on an exceptional halt of a call it must be empty; compared
+	if ref != nil && ref.World != nil {
+		out.state = h.stateDiff(ref)
 	}
 	h.adb.RevertToSnapshot(snap)
 	return out
+}
+
+// stateDiff compares code, nonce and every storage slot the reference ever
+// wrote, for the program's account, the origin and every creation target.
+func (h *harness) stateDiff(ref *evmref.Result) string {
+	addrs := append([]evmref.Address{evmref.Address(h.addr), evmref.Address(h.ctx.Origin)}, ref.Created...)
+	seen := map[evmref.Address]bool{}
+	for _, a := range addrs {
+		if seen[a] {
+			continue
+		}
+		seen[a] = true
+		want := ref.World.Acc[a]
+		if want == nil {
+			want = &evmref.Account{}
+		}
+		ca := common.Address(a)
+		if got := h.adb.GetCode(ca); !sameBytes(got, want.Code) {
+			return fmt.Sprintf("code of %x: reference %x, real %x", a[:], clip(want.Code, 64), clip(got, 64))
+		}
+		if got := h.adb.GetNonce(ca); got != want.Nonce {
+			return fmt.Sprintf("nonce of %x: reference %d, real %d", a[:], want.Nonce, got)
+		}
+		for k := range ref.Touched[a] {
+			w := new(big.Int)
+			if v := want.Storage[k]; v != nil {
+				w = v
+			}
+			got := h.adb.GetState(ca, common.Hash(k))
+			if !bytes.Equal(got.Bytes(), evmref.Word32(w)) {
+				return fmt.Sprintf("storage of %x slot %x: reference %x, real %x", a[:], k[:], evmref.Word32(w), got.Bytes())
+			}
+		}
+	}
+	return ""
 }
 
 // probe finds out which opcodes the real jump table defines: a one-byte
@@ -220,7 +285,7 @@ func (h *harness) runReal(code, data []byte) realOut {
 func (h *harness) probe() {
 	n := 0
 	for op := 0; op < 256; op++ {
-		out := h.runReal([]byte{byte(op)}, nil)
+		out := h.runReal([]byte{byte(op)}, nil, nil, nil)
 		_, undefined := out.err.(*vm.ErrInvalidOpCode)
 		h.defined[op] = !undefined
 		if !undefined {
@@ -249,24 +314,42 @@ func (h *harness) probe() {
 	}
 }
 
+// refCfg is the reference configuration for one program.
+func (h *harness) refCfg(p *Prog) *evmref.Config {
+	c := h.cfg
+	if p.HiGas {
+		c.MemHard = memHardHi
+	}
+	return &c
+}
+
+func runRef(p *Prog, code []byte, cfg *evmref.Config) *evmref.Result {
+	if p.Mode == "create" {
+		return evmref.RunCreate(code, cfg)
+	}
+	return evmref.Run(code, p.Data, cfg)
+}
+
 // assemble appends the epilogue that fits the state in which the reference
-// reaches it (fix-point: CODECOPY can read epilogue bytes).
+// reaches it (fix-point: CODECOPY can read epilogue bytes), then the blob.
 func (h *harness) assemble(p *Prog) ([]byte, *evmref.Result, bool) {
+	cfg := h.refCfg(p)
 	if p.Tail == "none" {
-		code := append([]byte{}, p.Body...)
-		return code, evmref.Run(code, p.Data, &h.cfg), true
+		code := append(append([]byte{}, p.Body...), p.Blob...)
+		return code, runRef(p, code, cfg), true
 	}
 	entry := uint64(len(p.Body))
 	d, ms := 0, 0
 	for iter := 0; iter < 6; iter++ {
-		code := make([]byte, 0, len(p.Body)+epiLen)
+		code := make([]byte, 0, len(p.Body)+epiLen+len(p.Blob))
 		code = append(code, p.Body...)
 		code = append(code, epilogue(d, ms, p.Tail == "revert")...)
-		res := evmref.Run(code, p.Data, &h.cfg)
+		code = append(code, p.Blob...)
+		res := runRef(p, code, cfg)
 		found := false
 		nd, nms := 0, 0
 		for i := range res.Trace {
-			if res.Trace[i].PC == entry {
+			if res.Trace[i].PC == entry && res.Trace[i].Depth == 1 {
 				found, nd, nms = true, res.Trace[i].StackLen, res.Trace[i].MemLen
 				break
 			}
@@ -290,6 +373,7 @@ type verdict struct {
 	real     realOut
 	diffStep int // first differing trace index, -1 if traces agree
 	what     string
+	rtrace   []evmref.Step // copy of the real trace (mismatches only)
 }
 
 func sameBytes(a, b []byte) bool { return len(a) == len(b) && bytes.Equal(a, b) }
@@ -305,13 +389,20 @@ func (h *harness) compare(p *Prog) verdict {
 		return v
 	}
 	v.code, v.ref = code, ref
-	switch ref.Class {
-	case evmref.Gray:
+	edgeOnly := false
+	switch {
+	case ref.Class == evmref.Gray:
 		h.r.Count("skipped_gray:"+ref.Reason, 1)
 		v.skipped = true
 		return v
-	case evmref.OutOfScope:
+	case ref.Class == evmref.OutOfScope && p.Edge:
+		edgeOnly = true // judge the stack validation and the trace up to the point where the reference stops
+	case ref.Class == evmref.OutOfScope:
 		h.r.Count("skipped_out_of_scope", 1)
+		v.skipped = true
+		return v
+	case ref.FailedChildren > maxFailedCh:
+		h.r.Count("skipped_gray:create-gas", 1)
 		v.skipped = true
 		return v
 	}
@@ -319,7 +410,11 @@ func (h *harness) compare(p *Prog) verdict {
 		v.skipped = true
 		return v
 	}
-	v.real = h.runReal(code, p.Data)
+	if edgeOnly {
+		v.real = h.runReal(code, p.Data, p, nil)
+	} else {
+		v.real = h.runReal(code, p.Data, p, ref)
+	}
 	real := v.real
 	n := len(ref.Trace)
 	if len(h.trace) < n {
@@ -331,6 +426,29 @@ func (h *harness) compare(p *Prog) verdict {
 			break
 		}
 	}
+	if edgeOnly {
+		_, under := real.err.(*vm.ErrStackUnderflow)
+		_, over := real.err.(*vm.ErrStackOverflow)
+		switch {
+		case v.diffStep >= 0 || len(h.trace) < len(ref.Trace):
+			if v.diffStep < 0 {
+				v.diffStep = n
+			}
+			v.mismatch = true
+			v.what = "the real run leaves the reference's trace before the reference leaves its scope"
+		case (under || over) && len(h.trace) == len(ref.Trace):
+			v.mismatch = true
+			v.diffStep = n
+			v.what = fmt.Sprintf("%s offered with %d stack items: the specification's stack check passes, the real EVM reports %v", evmref.Name(ref.LastOp), ref.Trace[len(ref.Trace)-1].StackLen, real.err)
+		}
+		if v.mismatch && v.diffStep >= 0 && v.diffStep < n {
+			v.what += fmt.Sprintf("; traces diverge at step %d: reference %s, real %s", v.diffStep, stepStr(ref.Trace, v.diffStep), stepStr(h.trace, v.diffStep))
+		}
+		if v.mismatch {
+			v.rtrace = append([]evmref.Step{}, h.trace...)
+		}
+		return v
+	}
 	if v.diffStep < 0 && len(ref.Trace) != len(h.trace) {
 		v.diffStep = n
 	}
@@ -338,15 +456,24 @@ func (h *harness) compare(p *Prog) verdict {
 	case real.class != ref.Class:
 		v.mismatch = true
 		v.what = fmt.Sprintf("outcome: reference %s (%s), real %s (err=%v)", ref.Class, ref.Reason, real.class, real.err)
-	case !sameBytes(real.ret, ref.Ret):
+	case !sameBytes(real.ret, ref.Ret) && !(p.Mode == "create" && ref.Class == evmref.Fail):
 		v.mismatch = true
 		v.what = "return data (memory + stack dump) differs: " + describeDiff(ref.Ret, real.ret)
+	case p.Mode == "create" && ref.Class == evmref.Success && evmref.Address(real.newAddr) != ref.NewAddress:
+		v.mismatch = true
+		v.what = fmt.Sprintf("address of the new contract: reference %x, real %x", ref.NewAddress[:], real.newAddr[:])
+	case real.state != "":
+		v.mismatch = true
+		v.what = "final state differs: " + real.state
 	case v.diffStep >= 0:
 		v.mismatch = true
-		v.what = "outcome class and return data agree"
+		v.what = "outcome class, return data and state agree"
 	}
 	if v.mismatch && v.diffStep >= 0 {
 		v.what += fmt.Sprintf("; traces diverge at step %d: reference %s, real %s", v.diffStep, stepStr(ref.Trace, v.diffStep), stepStr(h.trace, v.diffStep))
+	}
+	if v.mismatch {
+		v.rtrace = append([]evmref.Step{}, h.trace...)
 	}
 	return v
 }
@@ -356,7 +483,7 @@ func stepStr(t []evmref.Step, i int) string {
 		return "(ended)"
 	}
 	s := t[i]
-	return fmt.Sprintf("{pc=%d op=%s stack=%d mem=%d}", s.PC, evmref.Name(s.Op), s.StackLen, s.MemLen)
+	return fmt.Sprintf("{depth=%d pc=%d op=%s stack=%d mem=%d}", s.Depth, s.PC, evmref.Name(s.Op), s.StackLen, s.MemLen)
 }
 
 func describeDiff(want, got []byte) string {
@@ -411,6 +538,8 @@ func (h *harness) runCase(p *Prog) {
 	}
 	var v verdict
 	if r.Guard("C10:"+p.Family, p, func() { v = h.compare(p) }) {
+		h.newDB() // the panic skipped the rollback: start the next case from a clean state
+		h.curEVM = nil
 		return
 	}
 	if v.skipped {
@@ -421,6 +550,14 @@ func (h *harness) runCase(p *Prog) {
 	r.Count("outcome:"+v.ref.Class.String(), 1)
 	if v.ref.Class == evmref.Fail {
 		r.Count("fail_reason:"+v.ref.Reason, 1)
+	}
+	if p.Edge {
+		r.Count("edge_evaluations", 1)
+		r.Distinct("edge_pair", []byte(p.Cfg), []byte(p.Op), []byte(strconv.Itoa(p.Depth)))
+	}
+	if v.ref.MaxDepth > 1 {
+		r.Count("programs_with_inner_frames", 1)
+		r.Count("inner_creations", int64(len(v.ref.Created)))
 	}
 
 	// vector cases: both interpreters against the repository's geth vectors
@@ -445,7 +582,7 @@ func (h *harness) runCase(p *Prog) {
 				h.refHist[op] += int64(n)
 			}
 		}
-		if v.ref.Steps >= 3 && v.ref.Class != evmref.Fail {
+		if v.ref.Steps >= 3 && (v.ref.Class == evmref.Success || v.ref.Class == evmref.Revert) {
 			r.Count("nontrivial_programs", 1)
 			if h.distinctSeen < 150000 {
 				h.distinctSeen++
@@ -463,6 +600,8 @@ func (h *harness) runCase(p *Prog) {
 	wit := p
 	what := v.what
 	switch {
+	case p.Edge && p.Op != "":
+		sig = "C10:" + p.Op + ":stack-boundary-mismatch"
 	case p.Op != "":
 		sig = "C10:" + p.Op + ":result-mismatch"
 	case v.ref.Reason == "bad-jump" && v.real.class != evmref.Fail:
@@ -493,6 +632,8 @@ func (h *harness) runCase(p *Prog) {
 			}
 			var qv verdict
 			if r.Guard("C10:"+p.Family, &q, func() { qv = h.compare(&q) }) {
+				h.newDB()
+				h.curEVM = nil
 				return
 			}
 			if !qv.skipped && qv.mismatch {
@@ -503,11 +644,29 @@ func (h *harness) runCase(p *Prog) {
 		}
 	}
 	if sig == "" && v.diffStep > 0 && v.diffStep <= len(v.ref.Trace) {
-		sig = "C10:" + evmref.Name(v.ref.Trace[v.diffStep-1].Op) + ":state-divergence"
+		prev := v.ref.Trace[v.diffStep-1]
+		if prev.Op == 0x56 || prev.Op == 0x57 { // did the jump land, in either run?
+			landed := func(t []evmref.Step) bool {
+				return v.diffStep < len(t) && t[v.diffStep].Depth == prev.Depth && t[v.diffStep].Op == 0x5b
+			}
+			switch ra, xa := landed(v.ref.Trace), landed(v.rtrace); {
+			case ra && !xa:
+				sig = "C10:jump:valid-destination-rejected"
+			case !ra && xa:
+				sig = "C10:jump:invalid-destination-accepted"
+			}
+			if sig != "" && prev.Depth > 1 {
+				sig += ":in-initcode"
+			}
+		}
+		if sig == "" {
+			sig = "C10:" + evmref.Name(prev.Op) + ":state-divergence"
+		}
 	}
 	if sig == "" {
 		sig = "C10:program:" + p.Family + ":result-mismatch"
 	}
+	r.Count("mismatching_evaluations:"+sig, 1)
 	r.Violation(sig, what, map[string]interface{}{
 		"case": wit, "code": mon.Hex(v.code), "reference_class": v.ref.Class.String(), "reference_reason": v.ref.Reason,
 		"real_class": v.real.class.String(), "real_err": fmt.Sprint(v.real.err),
@@ -516,7 +675,7 @@ func (h *harness) runCase(p *Prog) {
 
 // ---------------------------------------------------------------------------
 
-var sampleFams = map[string]bool{"vec": true, "grid2": true, "jumpmap": true, "mem": true, "line": true, "branch": true}
+var sampleFams = map[string]bool{"vec": true, "grid2": true, "jumpmap": true, "mem": true, "branch": true, "create": true}
 
 func childMain(r *mon.Run, args []string) {
 	if len(args) < 3 {
@@ -528,7 +687,7 @@ func childMain(r *mon.Run, args []string) {
 	nshards, _ := strconv.Atoi(args[2])
 	h := boot(r, cfgName)
 	ft := feat{push0: h.cfg.Push0, mcopy: h.cfg.Mcopy}
-	fams := families(r, cfgName, ft)
+	fams := families(r, cfgName, ft, h.defined)
 	sampled := 0
 	for _, f := range fams {
 		for i := shard; i < f.n; i += nshards {
@@ -680,14 +839,19 @@ func main() {
 		DistinctNontrivial: int64(r.DistinctCount("prog")),
 		Rule: "programs = body + fixed-length epilogue dumping MSIZE and the top <=32 stack items; families: geth vectors (src/vm/testdata), exhaustive boundary operand grids per unary/binary/ternary opcode (+ seeded random operands), " +
 			"memory-operand grids (MLOAD/MSTORE/MSTORE8/MCOPY/KECCAK256/CALLDATA*/CODECOPY/RETURN/REVERT), exhaustive PUSHn x alignment x jump-target maps, DUP/SWAP depth edges, stack limit, terminators and truncated PUSH, " +
-			"seeded random straight-line, memory-biased, branching (loops, if/else, jumps over junk, bad jump targets) and jump-maze programs; in the default fork schedule and with Proposal022 (PUSH0/MCOPY) inactive. " +
+			"seeded random straight-line, memory-biased, branching (loops, if/else, jumps over junk, bad jump targets) and jump-maze programs; " +
+			"stack boundary: every defined Ethereum opcode offered at (required-1), (required), (1024 - growth) and one more item (distinct (fork, opcode, depth) pairs in distinct_sets.edge_pair; for opcodes outside the set only the stack check and the trace prefix are judged); " +
+			"creation trees: a called contract or a top-level creation that CREATEs 2-4 different hash-less initcodes (also nested), each taking a jump, with offsets that are a JUMPDEST in one and PUSH data in another (both orders, longer later initcode) — result, return data, all-frame trace, created code, nonces and written storage slots compared; " +
+			"all in the default fork schedule and with Proposal022 (PUSH0/MCOPY) inactive. " +
 			"Non-trivial: >= 3 instructions executed and normal termination (RETURN/REVERT/STOP) in the reference; distinct by hash of code+calldata (recorded for the first 150k non-trivial programs of every child).",
 		Assumptions: []string{
 			"reference interpreter ref/evmref is correct (self-checked against src/vm/testdata/testcases_*.json each run)",
 			"with 1e11 gas a program that stays within 256 KiB of memory and 20000 steps never runs out of gas (Rangers prices are at most 900x Ethereum's), and a request for >= 256 MiB always does (w^2/512 alone > 1e11); programs in between are not judged",
 			"stack items below the top 32 are observed only through the stack length in the step trace",
+			"creation programs get 1e15 gas; runs with more than 4 exceptionally halting children (each burns 63/64 of the remaining gas) are not judged; deployed code above 24576 bytes is not judged (Rangers raises EIP-170's limit)",
+			"environment pushers (ADDRESS ... GAS) are judged for their stack effect only; CREATE with a non-zero value is outside the reference",
 		},
 		MustObserve: []string{"vector_checks", "reference_selfcheck_ok", "histogram_every_opcode_ge_1000", "bad_jump_programs", "nontrivial_programs",
-			"programs:grid2", "programs:grid3", "programs:line", "programs:branch", "programs:jumpmap", "programs:mem", "max_table_defined_default", "max_table_defined_pre022"},
+			"programs:grid2", "programs:grid3", "programs:line", "programs:branch", "programs:jumpmap", "programs:mem", "programs:edge", "programs:create", "programs_with_inner_frames", "edge_evaluations", "max_table_defined_default", "max_table_defined_pre022"},
 	})
 }
